@@ -309,9 +309,138 @@ pub fn alpha(fields: &[&str]) -> String
 	s
 }
 
-pub fn lexa(_fields: &[&str]) -> String
+fn ty_name(t: &penne::alpha::common::ValueType) -> &'static str
 {
-	"todo".into()
+	use penne::alpha::common::ValueType as V;
+	match t
+	{
+		V::Void => "void",
+		V::Int8 => "i8",
+		V::Int16 => "i16",
+		V::Int32 => "i32",
+		V::Int64 => "i64",
+		V::Int128 => "i128",
+		V::Uint8 => "u8",
+		V::Uint16 => "u16",
+		V::Uint32 => "u32",
+		V::Uint64 => "u64",
+		V::Uint128 => "u128",
+		V::Usize => "usize",
+		V::Char8 => "char8",
+		V::Bool => "bool",
+		_ => "?",
+	}
+}
+
+pub fn lex_error_code(e: &lexer::Error) -> u16
+{
+	use lexer::Error as E;
+	match e
+	{
+		E::UnexpectedZeroByteFile => 101,
+		E::TooManySourceBytes => 102,
+		E::TooManyTokens => 103,
+		E::UnexpectedCharacter => 110,
+		E::InvalidIntegerLength => 140,
+		E::InvalidIntegerTypeSuffix => 141,
+		E::MissingClosingQuote => 160,
+		E::UnexpectedTrailingBackslash => 161,
+		E::InvalidEscapeSequence => 162,
+		E::InvalidCharLiteral => 163,
+	}
+}
+
+fn alpha_tok(t: &lexer::Token) -> String
+{
+	use lexer::Token as T;
+	let s = |x: &str| format!("S{}", x);
+	let k = |x: &str| format!("K{}", x);
+	match t
+	{
+		T::ParenLeft => s("("),
+		T::ParenRight => s(")"),
+		T::BraceLeft => s("{"),
+		T::BraceRight => s("}"),
+		T::BracketLeft => s("["),
+		T::BracketRight => s("]"),
+		T::AngleLeft => s("<"),
+		T::AngleRight => s(">"),
+		T::Pipe => s("|"),
+		T::Ampersand => s("&"),
+		T::Caret => s("^"),
+		T::Exclamation => s("!"),
+		T::Placeholder => k("_"),
+		T::Plus => s("+"),
+		T::Minus => s("-"),
+		T::Times => s("*"),
+		T::Divide => s("/"),
+		T::Modulo => s("%"),
+		T::Colon => s(":"),
+		T::Semicolon => s(";"),
+		T::Dot => s("."),
+		T::Comma => s(","),
+		T::Assignment => s("="),
+		T::Equals => s("=="),
+		T::DoesNotEqual => s("!="),
+		T::IsGE => s(">="),
+		T::IsLE => s("<="),
+		T::ShiftLeft => s("<<"),
+		T::ShiftRight => s(">>"),
+		T::Arrow => s("->"),
+		T::PipeForType => s("|:"),
+		T::Dots => s(".."),
+		T::Fn => k("fn"),
+		T::Var => k("var"),
+		T::Const => k("const"),
+		T::If => k("if"),
+		T::Goto => k("goto"),
+		T::Loop => k("loop"),
+		T::Else => k("else"),
+		T::Cast => k("cast"),
+		T::As => k("as"),
+		T::Import => k("import"),
+		T::Pub => k("pub"),
+		T::Extern => k("extern"),
+		T::Struct => k("struct"),
+		T::Word8 => k("word8"),
+		T::Word16 => k("word16"),
+		T::Word32 => k("word32"),
+		T::Word64 => k("word64"),
+		T::Word128 => k("word128"),
+		T::Identifier(x) => format!("I{}", x),
+		T::Builtin(x) => format!("B{}", x),
+		T::NakedDecimal(n) => format!("D{}", n),
+		T::BitInteger(n) => format!("X{}", n),
+		T::SuffixedInteger { value, suffix_type } =>
+		{
+			format!("F{}:{}", value, ty_name(suffix_type))
+		}
+		T::CharLiteral(b) => format!("C{}", b),
+		T::Bool(b) => format!("L{}", if *b { 1 } else { 0 }),
+		T::StringLiteral { bytes } => format!("Q{}", hex(bytes)),
+		T::Type(t) => format!("T{}", ty_name(t)),
+	}
+}
+
+/// lexa <source>: the real first-generation lexer, canonical token dump
+pub fn lexa(fields: &[&str]) -> String
+{
+	let src = text(fields.get(0).copied().unwrap_or(""));
+	let toks = lexer::lex(&src, "f.pn");
+	let mut out = Vec::new();
+	for t in &toks
+	{
+		let k = match &t.result
+		{
+			Ok(tok) => alpha_tok(tok),
+			Err(e) => format!("E{}", lex_error_code(e)),
+		};
+		out.push(format!(
+			"{}@{}-{}/{}:{}",
+			k, t.location.span.start, t.location.span.end, t.location.line_number, t.location.line_offset
+		));
+	}
+	out.join(" ")
 }
 pub fn rebuild(_fields: &[&str]) -> String
 {
